@@ -1087,6 +1087,11 @@ class Exec:
                 k = d.const()
                 if k is not None and pred in ("eq", "ne"):
                     return (k == 0) == (pred == "eq")
+                if k is not None and sa.base()[0] is not None and sa.base()[0] == sb.base()[0] and abs(k) < (1 << 62):
+                    # two addresses inside one object: their order is the order of the offsets (`in < end`)
+                    r_ = {"ult": k < 0, "ule": k <= 0, "ugt": k > 0, "uge": k >= 0, "slt": k < 0, "sle": k <= 0, "sgt": k > 0, "sge": k >= 0}.get(pred)
+                    if r_ is not None:
+                        return r_
                 # bounds from earlier conditions on the same form
                 r = self._implied(p, pred, d) if ranges else None
                 if r is not None:
